@@ -352,6 +352,7 @@ class Interp(object):
         self._dyn_members = {}
         self._module_scope = {}
         self.trace = False
+        self.attr_tracer = None     # callable(kind, obj, attr): 'read' / 'probe' / 'write' of attributes of descriptor objects
 
     # ------------------------------------------------------------------ path exploration
     current = None    # the interpreter that is evaluating right now (used by Obj.__eq__ / __hash__)
@@ -561,6 +562,8 @@ class Interp(object):
         if isinstance(v, Obj):
             if attr == '__class__':
                 return ClassRef(v.cls)
+            if self.attr_tracer is not None:
+                self.attr_tracer('read', v, attr)
             if attr in v.attrs:
                 cb = v.attrs.get('__on_read__')
                 if cb is not None:
@@ -580,6 +583,16 @@ class Interp(object):
         if isinstance(v, ClassRef):
             if attr == '__name__':
                 return v.name
+            if attr in ('__mro__', '__bases__'):
+                # the resolution order of a repository class (from the model) or of a node class of this interpreter's grammar
+                if v.qual is not None and self.model is not None and v.qual in self.model.classes:
+                    chain = [ClassRef(q.rsplit('.', 1)[1], q) for q in self.model.mro(v.qual)]
+                    return tuple(chain if attr == '__mro__' else chain[1:2])
+                pyc = getattr(ast, v.name, None)
+                if isinstance(pyc, type):
+                    chain = pyc.__mro__ if attr == '__mro__' else pyc.__bases__
+                    return tuple(ClassRef(c.__name__) if c.__module__ in ('ast', '_ast') else c for c in chain)
+                return TOP
             if v.qual is not None and self.model is not None and v.qual in self.model.classes:
                 fi = self.model.method(v.qual, attr)
                 if fi is not None:
@@ -589,12 +602,17 @@ class Interp(object):
                     return val
             return TOP
         if isinstance(v, tuple) and len(v) == 3 and v[0] == 'super' and self.model is not None:
-            fi = self.model.method(v[2], attr)
-            if fi is None:
-                if attr == '__init__':
-                    return Closure(ast.parse('lambda *a, **k: None', mode='eval').body, {}, self)  # object.__init__
-                return TOP
-            return Closure(fi.node, {}, self, self_obj=v[1], cls=[k for k in self.model.mro(v[2]) if self.model.funcs.get(k + '.' + attr) is fi][0])
+            # the search continues in the resolution order of the *instance's* class, after the class super() was asked from
+            so = v[1]
+            chain = self.model.mro(so.qual) if isinstance(so, Obj) and so.qual and v[2] in self.model.mro(so.qual) else self.model.mro(v[2])
+            chain = chain[chain.index(v[2]):] if v[2] in chain else chain
+            for k in chain:
+                fi = self.model.funcs.get(k + '.' + attr)
+                if fi is not None:
+                    return Closure(fi.node, {}, self, self_obj=so, cls=k)
+            if attr == '__init__':
+                return Closure(ast.parse('lambda *a, **k: None', mode='eval').body, {}, self)  # object.__init__
+            return TOP
         if isinstance(v, tuple) and attr in ('major', 'minor') and len(v) >= 2:
             return v[0] if attr == 'major' else v[1]
         if isinstance(v, type) and v in (dict, str, bytes, int, float, list, tuple, set, frozenset) and hasattr(v, attr):
@@ -964,6 +982,8 @@ class Interp(object):
         elif isinstance(target, ast.Attribute):
             o = self.ev(target.value, env)
             if isinstance(o, Obj):
+                if self.attr_tracer is not None:
+                    self.attr_tracer('write', o, target.attr, value)
                 o.attrs[target.attr] = value
                 self.trace and self.events.append(('setattr', o, target.attr, value))
         elif isinstance(target, ast.Subscript) and isinstance(target.slice, ast.Slice):
@@ -1049,6 +1069,10 @@ class Interp(object):
                 call = self.getattr(fv, '__call__')
                 if isinstance(call, Closure):
                     return self.call_closure(call, args, kwargs)
+            if isinstance(fv, PyCallable):
+                return fv.fn(self, args, kwargs)
+            if isinstance(fv, tuple) and len(fv) == 3 and fv[0] == 'pymethod':
+                return self._call_pymethod(fv, args, kwargs)
             if fv in (int, float, complex, str, bytes, bool, tuple, list, dict, set):
                 if any(a is TOP or isinstance(a, Obj) for a in args) and fv is not dict:
                     return TOP
@@ -1074,28 +1098,41 @@ class Interp(object):
             if isinstance(call, Closure):
                 return self.call_closure(call, args, kwargs)
         if isinstance(fv, tuple) and len(fv) == 3 and fv[0] == 'pymethod':
-            _, recv, attr = fv
-            if attr in ('append', 'add', 'insert', 'extend') and isinstance(recv, (list, set)) and any(a is TOP or isinstance(a, Obj) for a in args):
-                try:
-                    getattr(recv, attr)(*args)
-                except TypeError:
-                    return TOP
-                return None
-            if any(a is TOP for a in args):
-                return TOP
-            if any(isinstance(a, Obj) for a in args):
-                if attr in ('append', 'extend', 'insert', 'add'):
-                    getattr(recv, attr)(*args)
-                    return None
-                return TOP
-            try:
-                return getattr(recv, attr)(*args, **kwargs)
-            except Exception as ex:
-                raise _Raise(type(ex).__name__)
+            return self._call_pymethod(fv, args, kwargs)
         if fv is not TOP and callable(fv) and fv in (int, float, complex, str, bytes, bool):
             return TOP
         self.unknown.append('call ' + ftext)
         return TOP
+
+    def _call_pymethod(self, fv, args, kwargs):
+        """A bound method of a value of the interpreter's own types (list.append, set.add, str.join ...), possibly stored in a variable first."""
+        _, recv, attr = fv
+        if self.attr_tracer is not None and attr in ('append', 'add', 'insert', 'extend', 'update', 'setdefault', '__setitem__') and isinstance(recv, (list, set, dict)):
+            self.attr_tracer('mutate', recv, attr)
+        if attr in ('append', 'add', 'insert', 'extend') and isinstance(recv, (list, set)) and any(a is TOP or isinstance(a, Obj) for a in args):
+            try:
+                getattr(recv, attr)(*args)
+            except TypeError:
+                return TOP
+            return None
+        if any(a is TOP for a in args):
+            return TOP
+        if any(isinstance(a, Obj) for a in args):
+            if attr in ('append', 'extend', 'insert', 'add'):
+                getattr(recv, attr)(*args)
+                return None
+            if isinstance(recv, (dict, set)) and attr in ('get', 'setdefault', 'pop', 'discard', 'remove', '__contains__', '__getitem__', '__setitem__') or \
+                    isinstance(recv, (list, tuple)) and attr in ('index', 'count', 'remove', '__contains__'):
+                # look-ups with objects as keys / elements: their __eq__ / __hash__ are the repository's (see Obj)
+                try:
+                    return getattr(recv, attr)(*args)
+                except Exception as ex:
+                    raise _Raise(type(ex).__name__)
+            return TOP
+        try:
+            return getattr(recv, attr)(*args, **kwargs)
+        except Exception as ex:
+            raise _Raise(type(ex).__name__)
 
     def typeof(self, v):
         if v is TOP:
@@ -1338,6 +1375,8 @@ class Interp(object):
         if o is TOP or name is TOP:
             return TOP
         if isinstance(o, Obj):
+            if self.attr_tracer is not None and isinstance(name, str):
+                self.attr_tracer('probe', o, name)
             if name in o.attrs:
                 return True
             if isinstance(name, str) and self.model is not None and (o.qual is not None or bool(self._classes_named(o.cls))):
@@ -1362,6 +1401,8 @@ class Interp(object):
             raise _Raise('AttributeError:' + args[1])
         if len(args) >= 2 and isinstance(args[0], Obj) and isinstance(args[1], str):
             o, name = args[0], args[1]
+            if self.attr_tracer is not None:
+                self.attr_tracer('read', o, name)
             if name in o.attrs:
                 return o.attrs[name]
             is_repo = self.model is not None and (o.qual is not None or bool(self._classes_named(o.cls)))
@@ -1384,6 +1425,8 @@ class Interp(object):
     def builtin_setattr(self, args, kwargs, e, env):
         o, name, value = args
         if isinstance(o, Obj) and isinstance(name, str):
+            if self.attr_tracer is not None:
+                self.attr_tracer('write', o, name, value)
             o.attrs[name] = value
             return None
         if isinstance(o, ClassRef) and o.qual is not None and isinstance(name, str):
